@@ -422,6 +422,10 @@ def gen_os(rng):
     elif rng.random() < 0.4:
         names.append("S:_text=%x" % stext)
     toks.append("xx=-" if rng.random() < 0.8 else "xx=0")
+    # the same addrxlat_sys_t was used before (Xen PV kernel -> this kernel -> Xen PV -> ...): sys_cleanup
+    # keeps sys->meth[], so the result must not depend on what the earlier initialisations left there
+    if rng.random() < 0.35:
+        toks.append("hist=%d" % rng.choice([1, 1, 2, 3]))
     if rng.random() < 0.15:
         names.append("N:sme_mask=%x" % (1 << rng.choice([47, 51, 63])))
     caps = rng.choice([2, 2, 2, 1, 3, 4, 4, 6])
